@@ -384,6 +384,11 @@ def _run(case: Dict[str, Any], sim: Sim, world: World) -> None:
         summary = []
         for i, (e, o) in enumerate(zip(R["entries"], out)):
             got = o.get(key) if isinstance(o, dict) else None
+            if got is None and isinstance(o, dict):
+                # the name of the result key is not part of the property: accept the single list-valued entry
+                lists = [v for kk, v in o.items() if isinstance(v, (list, tuple))]
+                if len(lists) == 1:
+                    got = lists[0]
             if got is None:
                 raise Violation(PROP, "BatchReactor.fit", "result_key_missing", cond, {"entry": e, "keys": list(o) if isinstance(o, dict) else repr(o)})
             got = list(got)
